@@ -17,6 +17,12 @@ def plan(tier, ctx):
     for nsym in ([2, 3, 4] if quick else list(range(1, 9)) + [12, 19]):
         qs.append(P.setcodes_query(nsym, core=(nsym == 3), witness=(nsym == 3), timeout=(None if quick else 2400)))
     qs.append(P.dynprefix_query())
+    # (d) dynamic header: code-length decoding loop, concrete prefix + arbitrary tail (lead)
+    #     measured (loaded machine): tail=1 ~180 s / 2.8 GB, tail=2 ~510 s / 3.6 GB per query
+    dl = [(5, 3, 1, 1)] if quick else [(0, 0, 2, 1), (5, 3, 1, 1), (29, 29, 3, 1), (0, 0, 2, 2), (2, 1, 1, 2), (0, 4, 0, 2)]
+    for (hlit, hdist, back, tail) in dl:
+        qs.append(P.dynlens_query(hlit, hdist, back, tail, core=False, witness=(not quick and tail == 1 and hlit == 0), timeout=(600 if quick else 2400),
+                                  mem_gb=12))
     # (e) trailer consumption: exact end position with data following the trailer (1-2 s each)
     rils = [0, 3, 8, 31, 32, 35, 40, 61, 64] if quick else list(range(0, 65))
     avs = [0, 3, 6, 9] if quick else [0, 1, 2, 3, 4, 5, 7, 8, 9, 11]
